@@ -4,7 +4,7 @@
 //@profile rel
 //@rlimit 150
 //@assume the reader / writer / matcher are abstract traits. Reader: std's contract with I/O errors excluded (compress() unwraps them: a failing reader or writer panics by design) - Ok(n) delivers the next n <= buf.len() bytes, Ok(0) on a non-empty buffer only at end of input. Writer: write_all appends. Matcher: get_next_space returns a buffer of the matcher's (non-zero) slice size
-//@assume compress_fastest is abstract with the contract of Kani unit E4: it appends ONE block that carries the given last-block flag and stands for the given data (`is_block`, uninterpreted); BlockHeader / FrameHeader::serialize append their (uninterpreted) byte images (Kani H1' / E3 prove those against the RFC)
+//@assume compress_fastest is abstract with the contract Verus unit E4V proves on its verbatim body (cross-checked by Kani E4): it appends ONE block that carries the given last-block flag and stands for the given data (`is_block`, uninterpreted); BlockHeader / FrameHeader::serialize append their (uninterpreted) byte images (Kani H1' / E3 prove those against the RFC)
 //@assume XxHash64 is abstract: a ghost sequence of absorbed bytes, `finish` is an uninterpreted function of it (twox-hash is trusted as XXH64)
 //@assume `source.read(&mut uncompressed_data[read_bytes..]).unwrap()` is rewritten to the abstract read_tail(source, &mut uncompressed_data, read_bytes) (same call; Verus lacks a frame specification for mutable sub-slices of a Vec)
 //@assume R-cfgfeat (default features: hash on); `cfg!(feature = "hash")` -> `true`; `(content_checksum as u32).to_le_bytes()` -> abstract le_bytes32; compression levels other than Uncompressed / Fastest are excluded by precondition (`unimplemented!()` arm); `read_bytes.try_into().unwrap()` -> abstract to_u32 (requires <= u32::MAX)
